@@ -98,13 +98,18 @@ Theorem C05_naming_sound : forall cfg, cfg_ok cfg -> forall lir outv a done s, N
 Proof. exact naming_sound. Qed.
 Print Assumptions C05_naming_sound.
 
-(* the hypotheses on the configuration are met by every configuration whose temporary prefix is
-   a prefix of neither variable name; decimal rendering of the counter is injective *)
+(* the hypotheses on the configuration are met by every configuration whose literal text before
+   the verb is a prefix of neither variable name; the rendering of the counter is injective for
+   every format of the modelled language (all verbs, zero/space padding, any width) *)
 Theorem C05_cfg_ok_intro : forall cfg, cfg_in cfg <> [] -> cfg_out cfg <> [] -> cfg_in cfg <> cfg_out cfg ->
   is_prefix (cfg_prefix cfg) (cfg_in cfg) = false -> is_prefix (cfg_prefix cfg) (cfg_out cfg) = false ->
   cfg_ok cfg.
 Proof. exact cfg_ok_intro. Qed.
 Print Assumptions C05_cfg_ok_intro.
+
+Theorem C05_format_injective : forall cfg n m, tmpname cfg n = tmpname cfg m -> n = m.
+Proof. exact tmpname_inj. Qed.
+Print Assumptions C05_format_injective.
 
 (* a program without instructions is refused *)
 Theorem C05_empty_refused : forall cfg, allocate cfg [] = Err ($"empty").
@@ -124,6 +129,11 @@ Definition ex_cfg : alloc_cfg := mkCfg ($"x") ($"z") ($"t").
 
 Example C05_ex_cfg_ok : cfg_ok ex_cfg.
 Proof. apply cfg_ok_intro; try discriminate; reflexivity. Qed.
+
+(* a configuration with a zero-padded binary counter and text after it: x%03b_ *)
+Definition ex_cfg2 : alloc_cfg := mkCfgF ($"in") ($"out") (mkFmt ($"x") VBin true 3 ($"_")).
+Example C05_ex_cfg2_ok : cfg_ok ex_cfg2 /\ tmpname ex_cfg2 5 = $"x101_" /\ tmpname ex_cfg2 1 = $"x001_".
+Proof. split; [apply cfg_ok_intro; try discriminate; reflexivity|split; reflexivity]. Qed.
 
 Example C05_ex_wf : wf_ir ex_prog.
 Proof. unfold wf_ir, ex_prog. cbn. intuition (try discriminate; try reflexivity; auto). Qed.
